@@ -585,14 +585,15 @@ namespace bloch::runtime {
         m_gcThreadStarted = false;
         m_allocSinceGc = 0;
         m_sim = QasmSimulator{m_collectQasmLog};
+        // Functions are registered first: a static initialiser may call them.
+        for (auto& fn : program.functions) {
+            m_functions[fn->name] = fn.get();
+        }
         bool hasClasses = !program.classes.empty();
         if (hasClasses) {
             buildClassTable(program);
             for (auto& kv : m_classTable) initStaticFields(kv.second.get());
             ensureGcThread();
-        }
-        for (auto& fn : program.functions) {
-            m_functions[fn->name] = fn.get();
         }
         auto it = m_functions.find("main");
         if (it != m_functions.end()) {
